@@ -8,6 +8,7 @@
 
   No Mathlib import here: the driver must link as a `lean_exe`.
 -/
+import PaletteModel.Cbrt
 
 /-- Constant expressions.  palette writes constants as `T::from_f64(<f64 const expr>)`: the expression is
     evaluated in `f64` and only then converted to `T`.  `K` keeps the expression so that `Float32` can do exactly
@@ -51,6 +52,9 @@ class Scalar (α : Type) extends Add α, Sub α, Mul α, Div α, Neg α, LT α, 
   max : α → α → α
   /-- `IsValidDivisor` (f32/f64: `is_normal`) -/
   isValidDivisor : α → Bool
+  /-- `MulAdd::mul_add(self, m, a)` = `self * m + a`.  For `f32`/`f64` this is `f32::mul_add`, a *fused* multiply-add (one
+      rounding): the `Float`/`Float32` instances reproduce that exactly (`SoftFma`), every exact reading is `x * m + a`. -/
+  mulAdd : α → α → α → α := fun x m a => x * m + a
   decLt : ∀ a b : α, Decidable (a < b)
   decLe : ∀ a b : α, Decidable (a ≤ b)
 
@@ -69,15 +73,80 @@ instance {α} [Scalar α] (a b : α) : Decidable (eqv a b) := by unfold eqv; exa
 def clamp {α} [Scalar α] (v lo hi : α) : α :=
   if v < lo then lo else if hi < v then hi else v
 
-/-- `MulAdd::mul_add(self, m, a)` = `self * m + a`; fused for f32/f64 with `std` (one rounding instead of two):
-    the correspondence tolerance covers the difference, the exact reading is the same. -/
-def mulAdd {α} [Scalar α] (x m a : α) : α := x * m + a
-/-- `MulSub::mul_sub(self, m, s)` = `self * m - s` -/
+/-- `MulSub::mul_sub(self, m, s)` = `(self * m) - s` (not fused, `num.rs`) -/
 def mulSub {α} [Scalar α] (x m s : α) : α := x * m - s
 
 def clampMin {α} [Scalar α] (v lo : α) : α := Scalar.max v lo   -- `f32::max`
 def clampMax {α} [Scalar α] (v hi : α) : α := Scalar.min v hi   -- `f32::min`
 end Scalar
+
+/-! ### exact fused multiply-add on bit patterns (Lean's `Float` has no `fma`) -/
+namespace SoftFma
+
+/-- a finite float as `±m·2^e` -/
+structure Dec where
+  neg : Bool
+  m : Nat
+  e : Int
+
+/-- decode an IEEE bit pattern with `mbits` fraction bits and `ebits` exponent bits; `none` for NaN / infinity -/
+def decode (bits mbits ebits : Nat) : Option Dec :=
+  let neg := (bits >>> (mbits + ebits)) % 2 == 1
+  let ef := (bits >>> mbits) % 2 ^ ebits
+  let mf := bits % 2 ^ mbits
+  let bias : Int := ((2 ^ (ebits - 1) - 1 : Nat) : Int)
+  if ef == 2 ^ ebits - 1 then none
+  else if ef == 0 then some ⟨neg, mf, 1 - bias - (mbits : Int)⟩
+  else some ⟨neg, mf + 2 ^ mbits, (ef : Int) - bias - (mbits : Int)⟩
+
+/-- round `n·2^e` (`n > 0`) to nearest, ties to even, and encode (overflow to infinity, gradual underflow) -/
+def encode (neg : Bool) (n : Nat) (e : Int) (mbits ebits : Nat) : Nat :=
+  let bias : Int := ((2 ^ (ebits - 1) - 1 : Nat) : Int)
+  let emin : Int := 1 - bias
+  let lead : Int := e + (Nat.log2 n : Int)                       -- exponent of the leading bit
+  let q : Int := if lead < emin then emin - (mbits : Int) else lead - (mbits : Int)   -- exponent of the last kept bit
+  let mant : Nat :=
+    if q ≤ e then n <<< (e - q).toNat
+    else
+      let k := (q - e).toNat
+      let hi := n >>> k
+      let rem := n % 2 ^ k
+      let half := 2 ^ (k - 1)
+      if rem > half || (rem == half && hi % 2 == 1) then hi + 1 else hi
+  let mag : Nat :=
+    if lead < emin then mant                                      -- subnormal (or it rounded up to the smallest normal)
+    else ((lead + bias).toNat <<< mbits) + (mant - 2 ^ mbits)     -- a carry out of the fraction bumps the exponent field
+  let inf : Nat := (2 ^ ebits - 1) <<< mbits
+  (if neg then 1 <<< (mbits + ebits) else 0) + (if mag ≥ inf then inf else mag)
+
+/-- exact `x·m + a`, rounded once; `none` when `x` or `m` is not finite or the exact result is zero (the caller then uses
+    the unfused expression, which is IEEE-correct in those cases); finite `x·m` plus an infinite/NaN `a` is `a` (the
+    unfused product could overflow to the opposite infinity) -/
+def fmaBits (x m a mbits ebits : Nat) : Option Nat :=
+  match decode x mbits ebits, decode m mbits ebits, decode a mbits ebits with
+  | some _, some _, none => some a
+  | some dx, some dm, some da =>
+    let pm := dx.m * dm.m
+    let pe := dx.e + dm.e
+    let pneg := dx.neg != dm.neg
+    let e := if pe < da.e then pe else da.e
+    let p : Int := ((pm <<< (pe - e).toNat : Nat) : Int)
+    let t : Int := ((da.m <<< (da.e - e).toNat : Nat) : Int)
+    let sum : Int := (if pneg then -p else p) + (if da.neg then -t else t)
+    if sum == 0 then none else some (encode (sum < 0) sum.natAbs e mbits ebits)
+  | _, _, _ => none
+
+end SoftFma
+
+def Float.fma (x m a : Float) : Float :=
+  match SoftFma.fmaBits x.toBits.toNat m.toBits.toNat a.toBits.toNat 52 11 with
+  | some b => Float.ofBits (UInt64.ofNat b)
+  | none => x * m + a
+
+def Float32.fma (x m a : Float32) : Float32 :=
+  match SoftFma.fmaBits x.toBits.toNat m.toBits.toNat a.toBits.toNat 23 8 with
+  | some b => Float32.ofBits (UInt32.ofNat b)
+  | none => x * m + a
 
 /-! ### IEEE double -/
 
@@ -91,7 +160,7 @@ instance : Scalar Float where
   const := K.eval
   abs := Float.abs
   sqrt := Float.sqrt
-  cbrt := Float.cbrt
+  cbrt := Cbrt.cbrt64       -- Rust's `f64::cbrt` is compiler-builtins' correctly rounded cbrt, not the system libm's (see Cbrt.lean)
   exp := Float.exp
   ln := Float.log
   floor := Float.floor
@@ -105,6 +174,7 @@ instance : Scalar Float where
   min := fun a b => if a.isNaN then b else if b.isNaN then a else if a < b then a else b
   max := fun a b => if a.isNaN then b else if b.isNaN then a else if a < b then b else a
   isValidDivisor := Float.isNormalB
+  mulAdd := Float.fma
   decLt := fun a b => inferInstanceAs (Decidable (a < b))
   decLe := fun a b => inferInstanceAs (Decidable (a ≤ b))
 
@@ -121,7 +191,7 @@ instance : Scalar Float32 where
   const := fun k => (K.eval (α := Float) k).toFloat32
   abs := Float32.abs
   sqrt := Float32.sqrt
-  cbrt := Float32.cbrt
+  cbrt := Cbrt.cbrt32       -- Rust's `f32::cbrt` = `libm::cbrtf` (FreeBSD), transcribed in Cbrt.lean
   exp := Float32.exp
   ln := Float32.log
   floor := Float32.floor
@@ -134,5 +204,6 @@ instance : Scalar Float32 where
   min := fun a b => if a.isNaN then b else if b.isNaN then a else if a < b then a else b
   max := fun a b => if a.isNaN then b else if b.isNaN then a else if a < b then b else a
   isValidDivisor := Float32.isNormalB
+  mulAdd := Float32.fma
   decLt := fun a b => inferInstanceAs (Decidable (a < b))
   decLe := fun a b => inferInstanceAs (Decidable (a ≤ b))
